@@ -56,7 +56,7 @@ def recip_kinds(recips):
             out.append('pass/h%d' % r['h'])
         else:
             e = keypool.entry(r['kid'])
-            out.append('RSA' if e['alg'] == 1 else 'ECDH/' + e['curve'] + ('/kdf%d,%d' % tuple(e['kdf']) if '@' in r['kid'] else ''))
+            out.append('RSA' if e['alg'] == 1 else 'RSA-encrypt-only' if e['alg'] == 2 else 'ECDH/' + e['curve'] + ('/kdf%d,%d' % tuple(e['kdf']) if '@' in r['kid'] else ''))
     return sorted(out)
 
 
